@@ -105,6 +105,39 @@ Definition weight_conversion_str (n : nat) (W : mat Q) (wcm : list nat) : option
   else if codes_eqb wcm c_lengths then Some (invert W)
   else None.
 
+(* ---------- dtype on the copy path (other.py after /repo commits 46a4b71, e4e2655) ----------
+   invert and normalize now start with
+       if not np.issubdtype(W.dtype, np.inexact):
+           if not copy: raise BCTParamError(...)
+           W = W.astype(float)      -- a FRESH float object with the same values; the name is rebound
+       elif copy:
+           W = W.copy()
+   [flt] = the argument's dtype is floating point.  Integer / bool values are exactly representable as floats, so the
+   promoted object holds the same rational values.  [invert_prog], [normalize_prog], [wc_prog] above are the flt = true path. *)
+Inductive outcome := Done (s : st) | RaiseParam | RaiseNotImplemented.
+
+Definition promote_or_copy (flt copy : bool) (s : st) : option st :=
+  if flt then Some (copy_if copy s) else if copy then Some (s_copy s) else None.
+
+Definition invert_prog_d (flt copy : bool) (s : st) : outcome :=
+  match promote_or_copy flt copy s with
+  | None => RaiseParam
+  | Some s => Done (s_write invert s)                                           (* E = np.where(W); W[E] = 1. / W[E] *)
+  end.
+
+Definition normalize_prog_d (n : nat) (flt copy : bool) (s : st) : outcome :=
+  match promote_or_copy flt copy s with
+  | None => RaiseParam
+  | Some s => let m := maxabs n (rd s) in Done (s_write (fun W i j => W i j / m) s)   (* W /= np.max(np.abs(W)) *)
+  end.
+
+(* weight_conversion hands W (whatever its dtype) and `copy` on; binarize has no dtype test *)
+Definition wc_prog_d (n : nat) (wcm : list nat) (flt copy : bool) (s : st) : outcome :=
+  if codes_eqb wcm c_binarize then Done (binarize_prog copy s)
+  else if codes_eqb wcm c_normalize then normalize_prog_d n flt copy s
+  else if codes_eqb wcm c_lengths then invert_prog_d flt copy s
+  else RaiseNotImplemented.
+
 (* the shape of logtransform / autofix: optional copy, then a REBINDING statement W = g(W) *)
 Definition rebind_shape (g : mat Q -> mat Q) (copy : bool) (s : st) : st :=
   let s := copy_if copy s in
@@ -125,14 +158,16 @@ Definition run_st_tp (rows : list (list Q)) (p : Q) (copy : bool) :=
   let n := length rows in
   match tp_prog sort_desc n p copy (init (of_rows 0 rows)) with
   | None => None | Some s => Some (observe n s) end.
-(* None = NotImplementedError; Some None = normalize of an all-zero matrix (NaN everywhere) *)
-Definition run_st_wc (rows : list (list Q)) (wcm : list nat) (copy : bool) :=
+(* result code: 0 = NotImplementedError, 1 = BCTParamError (copy=False on a non-float array), 2 = normalize of an all-zero
+   matrix (NaN everywhere), 3 = the observation *)
+Definition run_st_wc (rows : list (list Q)) (wcm : list nat) (flt copy : bool) : nat * option (list (list Q) * list (list Q) * bool) :=
   let n := length rows in
-  match wc_prog n wcm copy (init (of_rows 0 rows)) with
-  | None => None
-  | Some s =>
-      if (codes_eqb wcm c_normalize && Qeq_bool (maxabs n (of_rows 0 rows)) 0)%bool then Some None
-      else Some (Some (observe n s))
+  match wc_prog_d n wcm flt copy (init (of_rows 0 rows)) with
+  | RaiseNotImplemented => (0%nat, None)
+  | RaiseParam => (1%nat, None)
+  | Done s =>
+      if (codes_eqb wcm c_normalize && Qeq_bool (maxabs n (of_rows 0 rows)) 0)%bool then (2%nat, None)
+      else (3%nat, Some (observe n s))
   end.
 Definition run_wc_str (rows : list (list Q)) (wcm : list nat) : option (option (list (list Q))) :=
   let n := length rows in
